@@ -275,3 +275,174 @@ def translate(shape_src: str, types_src: str) -> tuple[str, dict]:
             f"  | TOpt self_elem => {bodies['Optional']}",
             "  end.", ""]
     return "\n".join(out), info
+
+
+# ================================================================================================ ScopeTree.parent / ScopeTree.lca (C04)
+def _stmts(f):
+    return [s for s in f.body if not (isinstance(s, ast.Expr) and isinstance(s.value, ast.Constant) and isinstance(s.value.value, str))]
+
+
+def translate_scope_tree(build_src: str) -> tuple[str, dict]:
+    """src/spox/_build.py: Builder.ScopeTree.parent and .lca -> Gallina.  `parent` must have exactly the shape
+    `return self.scope_of[self.subgraph_owner[g]] if g in self.subgraph_owner else g`; `lca` is translated statement by statement:
+    tuple assignments, `s.add(x)`, `x = self.parent(x)`, one `while <x> not in <s>:` loop followed by `return <x>` become a fuelled
+    recursive function over the loop's variables (fuel exhausted = the return expression, as in Build.lca)."""
+    tree = ast.parse(build_src)
+    b = [n for n in tree.body if isinstance(n, ast.ClassDef) and n.name == "Builder"]
+    if len(b) != 1:
+        raise Unsupported("class Builder")
+    st = [n for n in b[0].body if isinstance(n, ast.ClassDef) and n.name == "ScopeTree"]
+    if len(st) != 1:
+        raise Unsupported("class Builder.ScopeTree")
+    fs = {n.name: n for n in st[0].body if isinstance(n, ast.FunctionDef)}
+    if set(fs) != {"__init__", "parent", "lca"}:
+        raise Unsupported(f"ScopeTree methods {sorted(fs)}")
+    for f in fs.values():
+        if f.decorator_list:
+            raise Unsupported("decorated ScopeTree method")
+    # ---- parent
+    f = fs["parent"]
+    if [a.arg for a in f.args.args] != ["self", "graph"]:
+        raise Unsupported("parent parameters")
+    body = _stmts(f)
+    ok = (len(body) == 1 and isinstance(body[0], ast.Return) and isinstance(body[0].value, ast.IfExp))
+    if ok:
+        e = body[0].value
+
+        def attr(x, name):
+            return isinstance(x, ast.Attribute) and isinstance(x.value, ast.Name) and x.value.id == "self" and x.attr == name
+
+        ok = (isinstance(e.test, ast.Compare) and len(e.test.ops) == 1 and isinstance(e.test.ops[0], ast.In)
+              and isinstance(e.test.left, ast.Name) and e.test.left.id == "graph" and attr(e.test.comparators[0], "subgraph_owner")
+              and isinstance(e.orelse, ast.Name) and e.orelse.id == "graph"
+              and isinstance(e.body, ast.Subscript) and attr(e.body.value, "scope_of")
+              and isinstance(e.body.slice, ast.Subscript) and attr(e.body.slice.value, "subgraph_owner")
+              and isinstance(e.body.slice.slice, ast.Name) and e.body.slice.slice.id == "graph")
+    if not ok:
+        raise Unsupported("ScopeTree.parent is not `return self.scope_of[self.subgraph_owner[graph]] if graph in self.subgraph_owner else graph`")
+    out = ["(* GENERATED by harness/pysrc.py from the SOURCE TEXT of src/spox/_build.py (Builder.ScopeTree) - do not edit *)",
+           "From Coq Require Import List Arith Bool.", "From Spox Require Import Base IR Build.", "Import ListNotations.", "",
+           "(* self.scope_of[self.subgraph_owner[graph]] if graph in self.subgraph_owner else graph   (a missing scope_of entry, a KeyError in",
+           "   Python, reads as the graph itself - as in Build.parent) *)",
+           "Definition src_parent (own : list (nat * nref)) (sc : list (nref * nat)) (graph : nat) : nat :=",
+           "  match lookup Nat.eqb graph own with",
+           "  | Some o => match lookup nref_eqb o sc with Some s => s | None => graph end",
+           "  | None => graph end.", ""]
+    # ---- lca
+    f = fs["lca"]
+    params = [a.arg for a in f.args.args]
+    if params != ["self", "a", "b"]:
+        raise Unsupported("lca parameters")
+    body = _stmts(f)
+    sort = {"a": "nat", "b": "nat"}      # variable -> sort ('nat' | 'set')
+    pre = []
+
+    def expr(e):
+        if isinstance(e, ast.Name) and e.id in sort:
+            return e.id, sort[e.id]
+        if isinstance(e, ast.Set) and len(e.elts) == 1:
+            x, sx = expr(e.elts[0])
+            if sx != "nat":
+                _fail(e, "set of non-graphs")
+            return f"[{x}]", "set"
+        if (isinstance(e, ast.Call) and isinstance(e.func, ast.Attribute) and isinstance(e.func.value, ast.Name) and e.func.value.id == "self"
+                and e.func.attr == "parent" and len(e.args) == 1 and not e.keywords):
+            x, sx = expr(e.args[0])
+            if sx != "nat":
+                _fail(e, "parent of a non-graph")
+            return f"(src_parent own sc {x})", "nat"
+        _fail(e, "expression in lca")
+
+    def assign(s):
+        """-> list of (pattern, term) lets"""
+        if isinstance(s, ast.Assign) and len(s.targets) == 1:
+            t, v = s.targets[0], s.value
+            if isinstance(t, ast.Name):
+                x, sx = expr(v)
+                sort[t.id] = sx if t.id not in sort else sort[t.id]
+                if sort[t.id] != sx:
+                    _fail(s, "assignment changes the sort of a variable")
+                return [(t.id, x)]
+            if isinstance(t, ast.Tuple) and isinstance(v, ast.Tuple) and len(t.elts) == len(v.elts) == 2 and all(isinstance(x, ast.Name) for x in t.elts):
+                vals = [expr(x) for x in v.elts]
+                for tn, (_, sx) in zip(t.elts, vals):
+                    if sort.setdefault(tn.id, sx) != sx:
+                        _fail(s, "assignment changes the sort of a variable")
+                return [(f"'({t.elts[0].id}, {t.elts[1].id})", f"({vals[0][0]}, {vals[1][0]})")]
+        if (isinstance(s, ast.Expr) and isinstance(s.value, ast.Call) and isinstance(s.value.func, ast.Attribute) and s.value.func.attr == "add"
+                and isinstance(s.value.func.value, ast.Name) and sort.get(s.value.func.value.id) == "set" and len(s.value.args) == 1):
+            x, sx = expr(s.value.args[0])
+            if sx != "nat":
+                _fail(s, "adding a non-graph")
+            v = s.value.func.value.id
+            return [(v, f"({x} :: {v})")]
+        _fail(s, "statement in lca")
+
+    i = 0
+    while i < len(body) and not isinstance(body[i], ast.While):
+        pre += assign(body[i])
+        i += 1
+    if not (i + 2 == len(body) and isinstance(body[i], ast.While) and isinstance(body[i + 1], ast.Return) and not body[i].orelse):
+        raise Unsupported("lca: expected <assignments>; while ...: ...; return <variable>")
+    w, r = body[i], body[i + 1]
+    c = w.test
+    if not (isinstance(c, ast.Compare) and len(c.ops) == 1 and isinstance(c.ops[0], ast.NotIn)):
+        raise Unsupported("lca: loop condition is not `<x> not in <set>`")
+    cx, csx = expr(c.left)
+    cs, css = expr(c.comparators[0])
+    if csx != "nat" or css != "set":
+        raise Unsupported("lca: loop condition sorts")
+    loop_lets = []
+    for s in w.body:
+        loop_lets += assign(s)
+    ret, rs = expr(r.value)
+    if rs != "nat":
+        raise Unsupported("lca returns a non-graph")
+    vars_ = sorted(sort)                 # a b vis_a vis_b
+    sig = " ".join(f"({v} : {'nat' if sort[v] == 'nat' else 'list nat'})" for v in vars_)
+    lets = " ".join(f"let {p} := {t} in" for p, t in loop_lets)
+    out += ["(* the while loop of ScopeTree.lca as a fuelled recursion over its variables; fuel exhausted = the value returned after the loop *)",
+            f"Fixpoint src_lca_loop (fuel : nat) (own : list (nat * nref)) (sc : list (nref * nat)) {sig} {{struct fuel}} : nat :=",
+            f"  match fuel with O => {ret} | S fuel' =>",
+            f"    if negb (Base.mem Nat.eqb {cx} {cs}) then {lets} src_lca_loop fuel' own sc {' '.join(vars_)} else {ret} end.",
+            "Definition src_lca (fuel : nat) (own : list (nat * nref)) (sc : list (nref * nat)) (a b : nat) : nat :=",
+            "  " + " ".join(f"let {p} := {t} in" for p, t in pre) + f" src_lca_loop fuel own sc {' '.join(vars_)}.", ""]
+    return "\n".join(out), {"sha256": {"_build.py": hashlib.sha256(build_src.encode()).hexdigest()}, "loop_variables": vars_}
+
+
+# ================================================================================================ running a tie inside a check
+def check_tie(run, key, what, translate, gen_name, facts_name, n_theorems):
+    """Translate, write <scratch>/<gen_name>, compile it and coq/gen/<facts_name> against it.  Returns the evidence record.
+    Outside the subset: recorded, no alarm by itself.  Translated but the equivalence theorems do not re-check: a broken proof
+    obligation (reported unless a concrete failing input is reported instead)."""
+    import shutil
+    import time
+    from harness.common import COQ, sh
+
+    t0 = time.time()
+    rec = {"what": what}
+    try:
+        text, info = translate()
+    except Unsupported as e:
+        rec.update(translated=False, reason=str(e)[:400])
+        run.notes.append(f"source tie (translator, {what}): the current source text is outside the translated subset: " + str(e)[:200])
+        return rec
+    except Exception as e:  # noqa: BLE001
+        rec.update(translated=False, reason=f"{type(e).__name__}: {e}"[:400])
+        run.notes.append(f"source tie (translator, {what}): could not read / parse the source: " + rec["reason"][:200])
+        return rec
+    sc = run.scratch() / "srcgen"
+    sc.mkdir(parents=True, exist_ok=True)
+    (sc / gen_name).write_text(text)
+    shutil.copy(COQ / "gen" / facts_name, sc / facts_name)
+    rc1, out1 = sh(f"timeout 300 coqc -R {COQ} Spox -R {sc} Gen {sc}/{gen_name}", timeout=320)
+    rc2, out2 = (1, "") if rc1 != 0 else sh(f"timeout 300 coqc -R {COQ} Spox -R {sc} Gen {sc}/{facts_name}", timeout=320)
+    closed = out2.count("Closed under the global context")
+    ok = rc1 == 0 and rc2 == 0 and closed == n_theorems
+    rec.update(translated=True, generated_lines=text.count("\n"), generated_definitions_compile=rc1 == 0, equivalence_theorems=n_theorems,
+               equivalence_theorems_checked=closed if rc2 == 0 else 0, axioms="none" if ok else "n/a", wall_s=round(time.time() - t0, 1), **info)
+    if not ok:
+        rec["coqc_output"] = (out1 + out2)[-1200:]
+        run.fail("proof", key, f"the Gallina functions generated from the current source text of {what} are no longer proved equal to the model's "
+                 f"(coq/gen/{facts_name} does not re-check)", {"coqc_output": rec["coqc_output"], "generated": text})
+    return rec
